@@ -261,13 +261,14 @@ def gen(tier):
 
 
 def _k2(clause, f):
-    """K2: the nested text rendering of an element skipped by 221YYY is a line with a name but without a value, which
-    the nested text -> flat JSON converter takes for a value (SyntaxError / ValueError from literal_eval)"""
+    """K2: the nested text rendering of an element skipped by 221YYY is a line with a name but without a value; the
+    nested text -> flat JSON converter takes the last word of the name for the value: literal_eval fails (SyntaxError /
+    ValueError) or, when the name ends in a number ("... SOLUTION 1"), an extra value appears.  Every clause about the
+    nested TEXT format of a message that has such an element belongs to this finding; the other three formats of the
+    same message are still checked."""
     if not isinstance(f.get('case'), dict) or '221_skipped' not in (f['case'].get('features') or []):
         return False
-    if 'converting the nested text rendering back to flat JSON raised' in clause:
-        return 'SyntaxError' in clause or 'ValueError' in clause
-    return 'encode command from the nested text rendering failed' in clause and 'Nested Text format' in str(f['detail'])
+    return 'nested text' in clause
 
 
 SIGNATURES = {'nested_text_of_221_skipped_element': _k2}
